@@ -7,6 +7,7 @@ import (
 	"io"
 	"net"
 	"net/http"
+	"strings"
 	"sync"
 	"time"
 )
@@ -71,8 +72,13 @@ func (n *NCS) handle(w http.ResponseWriter, r *http.Request) {
 		w.WriteHeader(http.StatusBadGateway)
 	case "500":
 		w.WriteHeader(http.StatusInternalServerError)
+		w.Write([]byte(`{"error":"internal"}`))
 	default:
+		// like a real service: an answer with a body (a client that never reads or
+		// closes response bodies keeps the connection busy)
+		w.Header().Set("Content-Type", "application/json")
 		w.WriteHeader(http.StatusOK)
+		w.Write([]byte(`{"status":"accepted","id":"` + p.Receipt[:min(len(p.Receipt), 24)] + `","note":"` + strings.Repeat("x", 600) + `"}`))
 	}
 }
 
